@@ -126,6 +126,10 @@ type inliner struct {
 	exprInlined  int
 	scalarised   int
 	inReturnExpr bool
+	closureFn    map[types.Object]*types.Func // local `name := func(...) {...}` -> synthetic function object
+	closureLit   map[*types.Func]*ast.FuncLit
+	closureUses  map[*types.Func]int
+	closureDef   map[*types.Func]ast.Stmt
 	substRecv    bool   // current call: the receiver is substituted, not bound
 	substParam   []bool // current call: per parameter
 	// a package-level type whose name is taken by a local of the caller is addressed through a
@@ -402,6 +406,30 @@ func (il *inliner) captureFree(fd *ast.FuncDecl, call *ast.CallExpr, callerFile 
 	if fd.Recv != nil {
 		check(fd.Recv)
 	}
+	// a function literal also reads and writes locals of the enclosing function: each must be the
+	// same variable at the call site (not shadowed by a declaration in between)
+	if fd.Name != nil && strings.HasPrefix(fd.Name.Name, "closure__") {
+		ast.Inspect(fd.Body, func(m ast.Node) bool {
+			id, isID := m.(*ast.Ident)
+			if !isID {
+				return true
+			}
+			v, isVar := info.Uses[id].(*types.Var)
+			if !isVar || v.IsField() || v.Parent() == il.pkg.Types.Scope() {
+				return true
+			}
+			if v.Pos() >= fd.Body.Pos() && v.Pos() <= fd.Body.End() {
+				return true // the literal's own local
+			}
+			if fd.Type.Params != nil && v.Pos() >= fd.Type.Pos() && v.Pos() <= fd.Type.End() {
+				return true // its parameter
+			}
+			if _, lo := inner.LookupParent(id.Name, call.Pos()); lo != types.Object(v) {
+				okAll, why = false, "captured variable "+id.Name+" is shadowed at the call site"
+			}
+			return true
+		})
+	}
 	return okAll, why
 }
 
@@ -649,6 +677,14 @@ func (il *inliner) stmtEdit(stmt ast.Stmt, file *ast.File) (string, bool) {
 			id = f.Sel
 		}
 		if id == nil {
+			return nil, nil
+		}
+		if v, isVar := info.Uses[id].(*types.Var); isVar {
+			if syn := il.closureFn[v]; syn != nil {
+				if _, isIdent := ast.Unparen(c.Fun).(*ast.Ident); isIdent {
+					return syn, c
+				}
+			}
 			return nil, nil
 		}
 		fn, _ := info.Uses[id].(*types.Func)
@@ -917,7 +953,9 @@ func (il *inliner) run() {
 				continue
 			}
 			curFn = fd
+			il.registerClosures(fd)
 			visitList(fd.Body.List)
+			il.dropInlinedClosures(fd, file)
 		}
 	}
 	if len(il.edits) == 0 && il.exprInlined == 0 {
@@ -959,7 +997,7 @@ func buildInlinedOverlay(pkgs []*packages.Package, base map[string][]byte) *inli
 		if !isJivaPkg(p.Types) || strings.Contains(p.PkgPath, "/tests/") {
 			return
 		}
-		il := &inliner{pkg: p, fset: p.Fset, src: map[string][]byte{}, fresh: map[*types.Func]*ast.FuncDecl{}, edits: map[string][]inlineEdit{}, addImports: map[string]map[string]string{}, inlinedAll: map[*types.Func]int{}, aliasDecls: map[string]map[string]bool{}, renames: map[*ast.FuncDecl]map[types.Object]string{}}
+		il := &inliner{pkg: p, fset: p.Fset, src: map[string][]byte{}, fresh: map[*types.Func]*ast.FuncDecl{}, edits: map[string][]inlineEdit{}, addImports: map[string]map[string]string{}, inlinedAll: map[*types.Func]int{}, aliasDecls: map[string]map[string]bool{}, renames: map[*ast.FuncDecl]map[types.Object]string{}, closureFn: map[types.Object]*types.Func{}, closureLit: map[*types.Func]*ast.FuncLit{}, closureUses: map[*types.Func]int{}, closureDef: map[*types.Func]ast.Stmt{}}
 		any := false
 		for fn, fd := range fresh {
 			if fn.Pkg() == p.Types {
@@ -1932,6 +1970,7 @@ func (il *inliner) scalarise(fd *ast.FuncDecl) []inlineEdit {
 	}
 	var uses []useT
 	claimed := map[*ast.Ident]bool{}
+	specEnd := map[ast.Node]token.Pos{}
 	varOf := func(e ast.Expr) (*types.Var, *ast.Ident) {
 		e = ast.Unparen(e)
 		if u, ok := e.(*ast.UnaryExpr); ok && u.Op == token.AND {
@@ -1997,7 +2036,24 @@ func (il *inliner) scalarise(fd *ast.FuncDecl) []inlineEdit {
 			}
 		case *ast.DeclStmt:
 			gd, ok := x.Decl.(*ast.GenDecl)
-			if !ok || gd.Tok != token.VAR || len(gd.Specs) != 1 {
+			if !ok || gd.Tok != token.VAR {
+				return true
+			}
+			if len(gd.Specs) != 1 {
+				// `var ( a int; run holeRun; ... )`: the spec of the aggregate alone is rewritten
+				for _, sp := range gd.Specs {
+					vs, ok := sp.(*ast.ValueSpec)
+					if !ok || len(vs.Names) != 1 || len(vs.Values) != 0 {
+						continue
+					}
+					v, _ := info.Defs[vs.Names[0]].(*types.Var)
+					if v == nil || cands[v] == nil {
+						continue
+					}
+					uses = append(uses, useT{node: vs, kind: "spec", v: v, lit: nil})
+					specEnd[vs] = x.End()
+					claimed[vs.Names[0]] = true
+				}
 				return true
 			}
 			vs := gd.Specs[0].(*ast.ValueSpec)
@@ -2069,6 +2125,18 @@ func (il *inliner) scalarise(fd *ast.FuncDecl) []inlineEdit {
 		switch u.kind {
 		case "sel":
 			edits = append(edits, inlineEdit{off(u.node.Pos()), off(u.node.End()), fname(u.v, u.fld)})
+		case "spec":
+			var sb, keep strings.Builder
+			for i, f := range c.fields {
+				if i > 0 {
+					sb.WriteString("\n")
+				}
+				sb.WriteString(fmt.Sprintf("%s %s", fname(u.v, f.name), f.typ))
+				keep.WriteString(fmt.Sprintf("; _ = %s", fname(u.v, f.name)))
+			}
+			edits = append(edits, inlineEdit{off(u.node.Pos()), off(u.node.End()), sb.String()})
+			edits = append(edits, inlineEdit{off(specEnd[u.node]), off(specEnd[u.node]), keep.String()})
+			done[u.v] = true
 		case "decl":
 			vals, ok := litValues(c, u.lit)
 			if !ok {
@@ -2135,4 +2203,110 @@ func (il *inliner) scalarise(fd *ast.FuncDecl) []inlineEdit {
 		il.scalarised += n
 	}
 	return out
+}
+
+// ---------------------------------------------------------------------------
+// Local closures: `flush := func() {...}` defined once in a function and only ever called
+// (`flush()` as a statement, or in one of the statement shapes of stmtEdit) stands for its body at
+// every call.  The literal reads and writes the enclosing function's variables directly, so the
+// expansion needs no binding for them - only the check that each still denotes the same variable
+// at the call site.
+// ---------------------------------------------------------------------------
+
+func (il *inliner) registerClosures(fd *ast.FuncDecl) {
+	info := il.pkg.TypesInfo
+	ast.Inspect(fd.Body, func(n ast.Node) bool {
+		as, ok := n.(*ast.AssignStmt)
+		if !ok || as.Tok != token.DEFINE || len(as.Lhs) != 1 || len(as.Rhs) != 1 {
+			return true
+		}
+		id, ok := as.Lhs[0].(*ast.Ident)
+		lit, ok2 := ast.Unparen(as.Rhs[0]).(*ast.FuncLit)
+		if !ok || !ok2 {
+			return true
+		}
+		v, _ := info.Defs[id].(*types.Var)
+		if v == nil {
+			return true
+		}
+		// every use is the callee of a call; count them
+		uses, bad := 0, false
+		ast.Inspect(fd.Body, func(m ast.Node) bool {
+			switch x := m.(type) {
+			case *ast.CallExpr:
+				if fid, ok := ast.Unparen(x.Fun).(*ast.Ident); ok && info.Uses[fid] == types.Object(v) {
+					uses++
+					for _, a := range x.Args {
+						ast.Inspect(a, func(k ast.Node) bool {
+							if kid, ok := k.(*ast.Ident); ok && info.Uses[kid] == types.Object(v) {
+								bad = true
+							}
+							return true
+						})
+					}
+					return true
+				}
+			case *ast.Ident:
+				_ = x
+			}
+			return true
+		})
+		total := 0
+		ast.Inspect(fd.Body, func(m ast.Node) bool {
+			if kid, ok := m.(*ast.Ident); ok && info.Uses[kid] == types.Object(v) {
+				total++
+			}
+			return true
+		})
+		if bad || uses == 0 || total != uses {
+			return true // passed around, deferred as a value, ...: leave it
+		}
+		// go / defer of the closure are calls too, but not expandable
+		ast.Inspect(fd.Body, func(m ast.Node) bool {
+			switch x := m.(type) {
+			case *ast.GoStmt:
+				if fid, ok := ast.Unparen(x.Call.Fun).(*ast.Ident); ok && info.Uses[fid] == types.Object(v) {
+					bad = true
+				}
+			case *ast.DeferStmt:
+				if fid, ok := ast.Unparen(x.Call.Fun).(*ast.Ident); ok && info.Uses[fid] == types.Object(v) {
+					bad = true
+				}
+			}
+			return true
+		})
+		if bad {
+			return true
+		}
+		sig, _ := v.Type().Underlying().(*types.Signature)
+		if sig == nil {
+			return true
+		}
+		syn := types.NewFunc(lit.Pos(), il.pkg.Types, "closure__"+id.Name, sig)
+		il.closureFn[v] = syn
+		il.closureLit[syn] = lit
+		il.closureUses[syn] = uses
+		il.closureDef[syn] = as
+		il.fresh[syn] = &ast.FuncDecl{Name: ast.NewIdent("closure__" + id.Name), Type: lit.Type, Body: lit.Body}
+		return true
+	})
+}
+
+// dropInlinedClosures: a closure all of whose calls were expanded has no use left: its
+// definition goes (an unused local would not compile).
+func (il *inliner) dropInlinedClosures(fd *ast.FuncDecl, file string) {
+	for syn, def := range il.closureDef {
+		if def.Pos() < fd.Pos() || def.End() > fd.End() {
+			continue
+		}
+		if il.inlinedAll[syn] > 0 && il.inlinedAll[syn] == il.closureUses[syn] {
+			st, en := il.fset.Position(def.Pos()).Offset, il.fset.Position(def.End()).Offset
+			il.edits[file] = append(il.edits[file], inlineEdit{st, en, "{}"})
+			il.notes = append(il.notes, fmt.Sprintf("local closure %s of %s expanded at its %d call(s)", strings.TrimPrefix(syn.Name(), "closure__"), fd.Name.Name, il.inlinedAll[syn]))
+		} else if il.inlinedAll[syn] > 0 {
+			// partially expanded: cannot happen consistently within one round; undo by dropping
+			// the edits is not possible here, so keep the definition (it is still used)
+		}
+		delete(il.closureDef, syn)
+	}
 }
